@@ -30,6 +30,13 @@ func isSelfRecursive(fn *ssa.Function) bool {
 	return false
 }
 
+// blockReads: heap components read by the given blocks (callees included)
+func (v *Verifier) blockReads(blocks []*ssa.BasicBlock) map[string]bool {
+	rs := map[string]bool{}
+	v.readsOf(blocks, rs, map[*ssa.Function]bool{})
+	return rs
+}
+
 // readSet: heap components a (specification) function may read, transitively
 func (v *Verifier) readSet(fn *ssa.Function, seen map[*ssa.Function]bool) map[string]bool {
 	if seen[fn] {
@@ -37,8 +44,18 @@ func (v *Verifier) readSet(fn *ssa.Function, seen map[*ssa.Function]bool) map[st
 	}
 	seen[fn] = true
 	rs := map[string]bool{}
+	v.readsOf(fn.Blocks, rs, seen)
+	for _, a := range fn.AnonFuncs {
+		for c := range v.readSet(a, seen) {
+			rs[c] = true
+		}
+	}
+	return rs
+}
+
+func (v *Verifier) readsOf(blocks []*ssa.BasicBlock, rs map[string]bool, seen map[*ssa.Function]bool) {
 	cells := map[*ssa.Alloc]bool{}
-	for _, b := range fn.Blocks {
+	for _, b := range blocks {
 		for _, in := range b.Instrs {
 			switch x := in.(type) {
 			case *ssa.UnOp:
@@ -80,12 +97,6 @@ func (v *Verifier) readSet(fn *ssa.Function, seen map[*ssa.Function]bool) map[st
 			}
 		}
 	}
-	for _, a := range fn.AnonFuncs {
-		for c := range v.readSet(a, seen) {
-			rs[c] = true
-		}
-	}
-	return rs
 }
 
 func (ex *Exec) recCall(fr *Frame, st *State, pc *Term, fn *ssa.Function, args []Value) Value {
